@@ -89,6 +89,52 @@ def letter_table(e):
     return out
 
 
+STR_EQ = 'core::str::traits::<impl core::cmp::PartialEq for str>::eq'
+
+
+def letter_table_val(e, want=()):
+    """{literal: enum leaf} by valuation: the comparisons `subject == "lit"` the value depends on are grouped by subject
+    (the text slice read); for the slice that carries this component, the expression is evaluated with `subject == L`
+    true for the literal L and false for the others, whatever the nesting of matches / Options that carries the result.
+    A leaf that is not one enum value gives None (form not recognised)."""
+    groups = {}
+    seen = set()
+
+    def scan(x, d):
+        if not isinstance(x, tuple) or not x:
+            return
+        if x[0] == 'var':
+            if x in VAR_DEFS and x not in seen and d > 0:
+                seen.add(x)
+                scan(VAR_DEFS[x], d - 1)
+            return
+        if x[0] == 'call':
+            if x[1] == STR_EQ:
+                ls = [a_[1] for a_ in x[2] if a_[0] == 'str']
+                sub = [a_ for a_ in x[2] if a_[0] != 'str']
+                if ls and len(sub) == 1:
+                    groups.setdefault(sub[0], set()).add(ls[0])
+            return
+        for c in x:
+            if isinstance(c, tuple):
+                scan(c, d)
+    scan(e, 10)
+    if not groups:
+        return {}
+    subject = max(sorted(groups, key=repr), key=lambda g: len(groups[g] & set(want)))
+    out = {}
+    for L in sorted(groups[subject]):
+        def decide(c, vals):
+            if c[0] == 'call' and c[1] == STR_EQ and subject in c[2]:
+                ls = [a_[1] for a_ in c[2] if a_[0] == 'str']
+                if ls:
+                    return as_bool(ls[0] == L, vals)
+            return None
+        leaves = {leaf_enum(l) for l in tree_leaves(concretise(e, decide)) if l != ('never',)}
+        out[L] = list(leaves)[0] if len(leaves) == 1 else None
+    return out
+
+
 def leaf_enum(x):
     x = norm(x)
     if x[0] == 'enum':
@@ -143,6 +189,9 @@ def run(ctx):
         m = match(call('core::option::Option::<T>::ok_or', V('f'), ANY), norm(c['result']))
         if m is not None and m['f'][0] == 'loop':
             res_roots.add(m['f'][2])
+    if not res_roots and s.ret is not None:
+        # `match found { Some(m) => Ok(m), None => Err(e) }` and the like: the loop-carried variable the result is read from
+        res_roots = {x[2] for x in walk(norm(s.ret)) if isinstance(x, tuple) and x and x[0] == 'loop' and len(x) > 2}
     acc = [st for st in acc if st['target'][1] in res_roots and not st['target'][2]] or acc
     if len(acc) != 1:
         ctx.inconclusive('C12.R2', 'accepting store `found = Some(candidate)` not recognised (%d)' % len(acc))
@@ -167,6 +216,9 @@ def run(ctx):
             fin_ok = True
             continue
         m = match(('agg', 'core::result::Result', 'Ok', (('0', V('m')),)), v)
+        if m is not None and match(('field', ('variant', ('loop', ANY, found_root), 'Some'), '0'), m['m']) is not None:
+            fin_ok = True        # `match found { Some(m) => Ok(m), .. }`: the payload of the accepted candidate
+            continue
         if m is not None:
             # must be guarded by membership in new_legal(board)
             gs = [(norm(g['cond']), truth(g)) for g in guards(s, st['blk']) if g['cond'] is not None]
@@ -350,14 +402,24 @@ def run(ctx):
     want_rank = {str(i + 1): ranks[i] for i in range(8)}
     want_promo = {'N': 'Knight', 'B': 'Bishop', 'R': 'Rook', 'Q': 'Queen'}
 
-    def table_of(x):
+    def table_of(x, want, what):
+        """(table, recognised)"""
         t = letter_table(x)
-        return {k: leaf_enum(v) for k, v in t.items()}
+        t = {k: leaf_enum(v) for k, v in t.items()}
+        if not t:
+            t = letter_table_val(x, want)
+        if not t or None in t.values():
+            ctx.inconclusive('C12.R4', 'the %s letters are not read by a match on string literals (delegated or table form is not '
+                             'analysed): %s' % (what, sorted(t.items())[:4]))
+            return t, False
+        return t, True
     if 'piece' in comps:
         px = comps['piece']
         m = match(('agg', 'core::option::Option', 'Some', (('0', V('p')),)), px)
-        t = table_of(m['p']) if m else {}
-        if t == want_piece:
+        t, rec_ = table_of(m['p'], want_piece, 'piece') if m else ({}, True)
+        if not rec_:
+            pass
+        elif t == want_piece:
             ctx.ok('C12.R4', 'piece letters: %s (no letter -> pawn)' % sorted(t.items()), w)
         else:
             ctx.violation('C12.R4', KEY + ':piece-letters', 'piece letter table is %s' % sorted(t.items()), w)
@@ -365,14 +427,18 @@ def run(ctx):
         x = comps.get(name)
         m = match(('field', ('variant', V('o'), 'Some'), '0'), x) if x is not None else None
         if m is not None:
-            t = table_of(m['o'])
-            if t == want:
+            t, rec_ = table_of(m['o'], want, 'source ' + name)
+            if not rec_:
+                pass
+            elif t == want:
                 ctx.ok('C12.R4', 'source %s letters: %s' % (name, ''.join(sorted(t))), w)
             else:
                 ctx.violation('C12.R4', KEY + ':%s-letters' % name, 'source %s table is %s' % (name, sorted(t.items())), w)
     if 'promo' in comps:
-        t = table_of(comps['promo'])
-        if t == want_promo:
+        t, rec_ = table_of(comps['promo'], want_promo, 'promotion')
+        if not rec_:
+            pass
+        elif t == want_promo:
             ctx.ok('C12.R4', 'promotion letters: %s' % sorted(t.items()), w)
         else:
             ctx.violation('C12.R4', KEY + ':promotion-letters', 'promotion letter table is %s' % sorted(t.items()), w)
